@@ -35,7 +35,7 @@ func checkVersionsOn(what string, t *iavl.MutableTree, m *Model, probe []byte) *
 	if err != nil || lv != m.Latest {
 		return viol("versions", "%s: GetLatestVersion() = (%d,%v), model %d", what, lv, err, m.Latest)
 	}
-	for v := int64(0); v <= m.Latest+1; v++ {
+	for _, v := range m.VersionCandidates(0) {
 		has := m.Has(v)
 		if ex := t.VersionExists(v); ex != has {
 			vv := viol("versions", "%s: VersionExists(%d) = %v, model %v", what, v, ex, has)
@@ -101,7 +101,7 @@ func oracleVersions(probe []byte) Oracle {
 			return v
 		}
 		// LoadVersion(v) for every v on scratch instances
-		for v := int64(1); v <= m.Latest+1; v++ {
+		for _, v := range m.VersionCandidates(1) {
 			t2 := iavl.NewMutableTree(st.Clone(), w.Cfg.Cache, !w.Cfg.Fast, iavl.NewNopLogger(), w.Cfg.options()...)
 			_, err := t2.LoadVersion(v)
 			if (err == nil) != m.Has(v) {
